@@ -20,6 +20,8 @@ DEMOFILE=$DIR/zz_seeded_demo_test.go
 mkdir -p $DIR; cp $DEMO $DEMOFILE
 DEMOENV=""; grep -q "testing/synctest" $DEMO && DEMOENV="GOEXPERIMENT=synctest"
 RACE=""; grep -q -- "-race" $META && RACE="-race"
+# demonstrations that use the instrumentation hooks of the tree are built with its tag
+(grep -q -- "-tags verif" $META || grep -q "^//go:build verif" $DEMO) && RACE="$RACE -tags verif"
 TESTS=$(grep -o '^func Test[A-Za-z0-9_]*' $DEMO | sed 's/func //' | paste -sd'|')
 echo "== demo tests: $TESTS in $DIR"
 env $DEMOENV go test $RACE -vet=off -count=1 -run "^($TESTS)\$" ./$DIR/ > /tmp/evalmut.$$.base 2>&1; BASE=$?
